@@ -105,7 +105,8 @@ impl ArgS {
         let mut x = Arg::new(self.id.clone());
         if let Some(s) = self.short { x = x.short(s); }
         if let Some(l) = &self.long { x = x.long(l.clone()); }
-        for al in &self.aliases { x = x.alias(al.clone()); }
+        // even positions are visible aliases, odd ones hidden: parsing must not care
+        for (k, al) in self.aliases.iter().enumerate() { x = if k % 2 == 0 { x.visible_alias(al.clone()) } else { x.alias(al.clone()) }; }
         for sa in &self.short_aliases { x = x.short_alias(*sa); }
         if let Some(i) = self.index { x = x.index(i); }
         if let Some(a) = self.action {
@@ -220,7 +221,7 @@ impl CmdS {
     pub fn build(&self, env_names: &mut Vec<String>) -> Command {
         let s = &self.settings;
         let mut c = Command::new(self.name.clone());
-        for a in &self.aliases { c = c.alias(a.clone()); }
+        for (k, a) in self.aliases.iter().enumerate() { c = if k % 2 == 0 { c.visible_alias(a.clone()) } else { c.alias(a.clone()) }; }
         if let Some(f) = self.short_flag { c = c.short_flag(f); }
         if let Some(f) = &self.long_flag { c = c.long_flag(f.clone()); }
         for a in &self.short_flag_aliases { c = c.short_flag_alias(*a); }
